@@ -161,6 +161,10 @@ func (l *DList[T]) Replace(oldVal, newVal T) error {
 func (l *DList[T]) Delete(node *DoubleNode[T]) error {
 	head := &l.DoubleNode
 
+	if node == nil {
+		return fmt.Errorf("the node to be deleted does not exists")
+	}
+
 	if _, found := l.Find(node.Value); !found {
 		return fmt.Errorf("the node to be deleted does not exists")
 	}
